@@ -14,8 +14,9 @@ from . import CIW_REPO
 from .seeds import sub
 
 HERE = os.path.dirname(os.path.dirname(os.path.abspath(__file__)))
-REPLAYS = os.path.join(HERE, "replays")
-EVIDENCE = os.path.join(HERE, "evidence")
+_OUT = os.environ.get("VERIF_OUT") or HERE     # sensitivity runs against mutants write elsewhere
+REPLAYS = os.path.join(_OUT, "replays")
+EVIDENCE = os.path.join(_OUT, "evidence")
 FINDINGS_FILE = os.path.join(HERE, "known_findings.json")
 
 DEFAULT_SEED = 20261002
